@@ -330,9 +330,10 @@ pub fn derive_binary_codec(input: TokenStream) -> TokenStream {
             })
         }
     } else {
+        let name_string = name.to_string();
         quote! {
             #(#deserialization_commands)*
-            unreachable!()
+            deserializer.unknown_constructor(#name_string)
         }
     };
 
